@@ -1407,6 +1407,7 @@ struct AtomSim {
   std::vector<std::vector<int64_t>> prog;
   AtomicValue<uint64_t> mono;
   AtomicValue<uint_least8_t> countdown;
+  Task parent_task; // its parent counter is the second countdown (real Task API)
   AtomicValue<int32_t> mixed;
   AtomicValue<int64_t> mx;
   AtomicValue<bool> flag;
@@ -1419,7 +1420,7 @@ struct AtomSim {
   int64_t mx0;
   std::vector<std::pair<uint64_t, uint64_t>> mono_iv; // [old, new)
   uint64_t mono_done = 0, mono_started = 0;            // sums of increments
-  std::vector<int> countdown_seen;
+  std::vector<int> countdown_seen, parents_seen;
   int64_t mixed_model = 0; // exact when no mixed operation is in progress
   int mixed_inflight = 0;
   int64_t mx_done, mx_started; // max of completed / started max() operations
@@ -1438,6 +1439,7 @@ struct AtomSim {
     R.init(engine, nth);
     mono0 = (uint64_t)c.i("mono0");
     countdown0 = countdown_budget = (int)c.i("countdown0");
+    parent_task.set_number_of_unfinished_parents((uint_fast8_t)countdown0);
     mixed0 = (int32_t)c.i("mixed0");
     mixed_model = mixed0;
     mx0 = mx_done = mx_started = c.i("mx0");
@@ -1495,6 +1497,11 @@ struct AtomSim {
       const int v = (int)countdown.pre_decrement();
       R.tr(t, v);
       countdown_seen.push_back(v);
+      // the same countdown through Task's own interface: the value returned is
+      // what decides which parent releases the child
+      const int w = (int)parent_task.decrement_number_of_unfinished_parents();
+      R.tr(t, w);
+      parents_seen.push_back(w);
       break;
     }
     case A_PRESUB:
@@ -1653,6 +1660,19 @@ struct AtomSim {
     }
     if ((int)countdown.value() != countdown0 - (int)countdown_seen.size())
       return R.note("countdown: final value wrong");
+    std::sort(parents_seen.begin(), parents_seen.end());
+    for (size_t k = 0; k < parents_seen.size(); ++k) {
+      const int want = countdown0 - (int)parents_seen.size() + (int)k;
+      if (parents_seen[k] != want)
+        return R.note(fmt("Task::decrement_number_of_unfinished_parents from "
+                          "%d: %zu calls returned a value %d (expected %d): "
+                          "two parents saw the same count (both, or neither, "
+                          "would release the child)", countdown0,
+                          parents_seen.size(), parents_seen[k], want));
+    }
+    if ((int)parent_task.get_number_of_unfinished_parents() !=
+        countdown0 - (int)parents_seen.size())
+      return R.note("Task parent counter: final value wrong");
     if (mixed.value() != (int32_t)mixed_model)
       return R.note(fmt("mixed counter: final value %d, arithmetic gives %d",
                         mixed.value(), (int32_t)mixed_model));
@@ -2251,7 +2271,7 @@ int main(int argc, char **argv) {
   props.push_back(
       {"atomic_counters", 60000, gen_atom_case, o_atoms,
        "2-4 logical threads x 1-25 operations on AtomicValue counters "
-       "(post/pre-increment, post/pre-add, pre-decrement of a uint8 countdown, "
+       "(post/pre-increment, post/pre-add, pre-decrement of a uint8 countdown and of a Task's parent counter through Task::decrement_number_of_unfinished_parents, "
        "pre-subtract, max, value, lock/unlock of a flag) and LockFree::add on "
        "an integer and a double. Non-trivial: operations of different threads "
        "were interleaved (>=2 hand-overs, >=3 operations).",
